@@ -1604,6 +1604,20 @@ Proof.
     + intros x Hx. apply (zmem_map_on _ f x _ Hi); [apply Ir; exact Hx|exact Ip].
 Qed.
 
+(* compose is its trace followed by loop 5 (the assignment of the collected bonds) *)
+Theorem compose_ord_of_trace o1 o2 o3 r p :
+  compose_ord o1 o2 o3 r p =
+  match compose_trace o1 o2 o3 r p with
+  | Ok (ha, bs, _) => Ok (mkCgr ha (fold_left assign bs (map (fun na => (fst na, [])) ha)))
+  | Err e => Err e
+  end.
+Proof.
+  unfold compose_ord, compose_trace.
+  destruct (loop_side r o3 _ o1 []) as [[ha1 b1]|e]; [|reflexivity].
+  destruct (loop_side p o3 _ o2 ha1) as [[ha2 b2]|e]; [|reflexivity].
+  destruct (loop_common r p _ o3 ha2) as [[ha3 b3]|e]; reflexivity.
+Qed.
+
 (* ---------- non-vacuity ---------- *)
 (* C-C-O  ->  C=C  O(-):  bond 1-2 single -> double, bond 2-3 kept, atom 3 charge 0 -> -1 *)
 Definition example_r : mol :=
